@@ -103,6 +103,7 @@ let tok_of_comp c = match c with
 let is_async s = match s with "sync" -> false | "async" -> true | _ -> failwith "bad mode"
 
 exception Oracle_miss of string
+exception Case_timeout
 let intern : (string, int) Hashtbl.t = Hashtbl.create 1024
 let cx : ctx = {
   comp = (fun asy c b ->
@@ -295,6 +296,7 @@ let run_case (toks : string list) : string =
   | [] -> "unsupported"
 
 let () =
+  Sys.set_signal Sys.sigalrm (Sys.Signal_handle (fun _ -> raise Case_timeout));
   let ic = if Array.length Sys.argv > 1 && Sys.argv.(1) <> "-" then open_in Sys.argv.(1) else stdin in
   if Array.length Sys.argv > 2 then begin
     let cmd = String.concat " " (Array.to_list (Array.sub Sys.argv 2 (Array.length Sys.argv - 2))) in
@@ -307,7 +309,12 @@ let () =
       if String.length line > 0 && line.[0] <> '#' then begin
         match String.split_on_char ' ' line with
         | id :: toks ->
-          let res = (try run_case toks with
+          let res = (try
+              ignore (Unix.alarm 60);
+              let r = run_case toks in
+              ignore (Unix.alarm 0); r
+            with
+            | Case_timeout -> "unsupported model-timeout"
             | Stack_overflow -> "driver-stack-overflow"
             | Oracle_miss m -> "driver-oracle-miss " ^ m
             | Failure m -> "driver-failure " ^ m
